@@ -11,10 +11,9 @@ mod verif_ps_dict {
         let code: u8 = kani::any();
         if kani::any() { Operator::from_opcode(code) } else { Operator::from_extended_opcode(code) }
     }
-    fn any_stack(max: usize) -> Stack {
+    // a stack of exactly `n` operands (n is a constant at each call site), every operand any int or any 16.16 value
+    fn any_stack(n: usize) -> Stack {
         let mut s = Stack::new();
-        let n: usize = kani::any();
-        kani::assume(n <= max);
         let mut i = 0;
         while i < n {
             let v: i32 = kani::any();
@@ -24,7 +23,7 @@ mod verif_ps_dict {
         s
     }
 
-    //@defaults unit=U01.10 props=C01,C20,C02 tier=quick level=bounded bound="any operator; operand stack of depth <= 6 (scalar operators) / <= 16 (array operators), any operands" timeout=1200
+    //@defaults unit=U01.10 props=C01,C20,C02 tier=quick level=bounded bound="any operator; operand stack of depth 0, 2 or 6 (scalar operators) / 3 or 15 (array operators), any operands" timeout=1200
     //@harness fns=parse_int level=complete bound=""
     #[kani::proof]
     #[kani::unwind(6)]
@@ -54,7 +53,7 @@ mod verif_ps_dict {
         let Some(op) = any_op() else { return; };
         use Operator::*;
         kani::assume(!matches!(op, Blend | BlueValues | OtherBlues | FamilyBlues | FamilyOtherBlues | StemSnapH | StemSnapV));
-        let mut s = any_stack(6);
+        let mut s = if kani::any() { any_stack(6) } else if kani::any() { any_stack(2) } else { any_stack(0) };
         let depth = s.len();
         let r = parse_entry(op, &mut s);
         if let Ok(Entry::PrivateDictRange(range)) = &r { assert!(range.start <= range.end); }
@@ -70,7 +69,7 @@ mod verif_ps_dict {
         let Some(op) = any_op() else { return; };
         use Operator::*;
         kani::assume(matches!(op, BlueValues | OtherBlues | FamilyBlues | FamilyOtherBlues | StemSnapH | StemSnapV));
-        let mut s = any_stack(16);
+        let mut s = if kani::any() { any_stack(15) } else { any_stack(3) };
         let depth = s.len();
         let r = parse_entry(op, &mut s);
         match r {
@@ -79,7 +78,7 @@ mod verif_ps_dict {
             Ok(Entry::StemSnapH(v)) | Ok(Entry::StemSnapV(v)) => assert!(v.values().len() == depth.min(MAX_STEM_SNAPS)),
             _ => assert!(false),
         }
-        kani::cover!(depth == 16);
-        kani::cover!(depth == 0);
+        kani::cover!(depth == 15);
+        kani::cover!(depth == 3);
     }
 }
